@@ -128,6 +128,7 @@ inductive CodecInfo
   | other                            -- some other codec (UTF-16, Shift-JIS, …): exists, not modelled
   | notACodec                        -- `codecs.lookup` raises LookupError
   | unlisted
+  deriving DecidableEq
 
 def codecInfo (name : PStr) : CodecInfo :=
   match Gen.Detwingle.codecNames.lookup name with
@@ -205,13 +206,17 @@ def stripBom (data : Bytes) : Bytes × Option PStr :=
 
 /-- `EncodingDetector.encodings` (dammit.py:594-643) with `_usable` (dammit.py:574-589): the known
     encodings, the BOM's encoding, the declared encoding, then `utf-8`, `windows-1252`; a name is dropped
-    when its lower-cased form was already yielded.  (`user_encodings`, `exclude_encodings` empty, no
-    chardet.)  `declared` is what `find_declared_encoding` returns — a parameter here; the theorems hold
-    for every value of it. -/
-def detectorEncodings (known : List PStr) (sniffed declared : Option PStr) : List PStr :=
-  ((known ++ sniffed.toList ++ declared.toList ++ [nUtf8, nWindows1252]).foldl
+    when its lower-cased form was already yielded.  `known` already includes the deprecated
+    `override_encodings` (appended at dammit.py:608, `+=`); `user` = `user_encodings` (dammit.py:616-618);
+    `exclude_encodings` empty, no chardet.  `declared` is what `find_declared_encoding` returns — a
+    parameter here; the theorems hold for every value of it. -/
+def detectorEncodingsU (known : List PStr) (sniffed : Option PStr) (user : List PStr) (declared : Option PStr) : List PStr :=
+  ((known ++ sniffed.toList ++ user ++ declared.toList ++ [nUtf8, nWindows1252]).foldl
     (fun (acc : List PStr × List PStr) e =>
       if acc.2.contains (asciiLower e) then acc else (acc.1 ++ [e], acc.2 ++ [asciiLower e])) ([], [])).1
+
+def detectorEncodings (known : List PStr) (sniffed declared : Option PStr) : List PStr :=
+  detectorEncodingsU known sniffed [] declared
 
 def replaceDash (r : PStr) (s : PStr) : PStr := s.flatMap fun c => if c = 45 then r else [c]
 
@@ -298,11 +303,11 @@ def pass2 (t : MsTables) (mode : Mode) (data : Bytes) : List PStr → Tried → 
 
 /-- `UnicodeDammit(markup, known, smart_quotes_to=mode)` (dammit.py:766-838) for `bytes` markup:
     `unicode_markup`, `contains_replacement_characters`, `original_encoding`. -/
-def unicodeDammitWith (t : MsTables) (known : List PStr) (declared : Option PStr) (mode : Mode) (markup : Bytes) : Outcome :=
+def unicodeDammitWithU (t : MsTables) (known user : List PStr) (declared : Option PStr) (mode : Mode) (markup : Bytes) : Outcome :=
   if markup = [] then .ok [] false none                                    -- :792-796
   else
     let (data, sniffed) := stripBom markup                                 -- :800 (detector.markup)
-    let cs := detectorEncodings known sniffed declared
+    let cs := detectorEncodingsU known sniffed user declared
     match pass1 t mode data cs [] with
     | (_, some o) => o
     | (tried, none) =>
@@ -310,7 +315,17 @@ def unicodeDammitWith (t : MsTables) (known : List PStr) (declared : Option PStr
       | (_, some o) => o
       | (_, none) => .failed                                               -- :833-835
 
+/-- without `user_encodings` -/
+def unicodeDammitWith (t : MsTables) (known : List PStr) (declared : Option PStr) (mode : Mode) (markup : Bytes) : Outcome :=
+  unicodeDammitWithU t known [] declared mode markup
+
 def unicodeDammit : List PStr → Option PStr → Mode → Bytes → Outcome := unicodeDammitWith liveTables
+
+/-- `UnicodeDammit(markup, known_definite_encodings=known, smart_quotes_to=mode, user_encodings=user,
+    override_encodings=override)`: the constructor's keyword/positional binding is not modelled (every
+    call form must bind the same parameters; the harness runs them all), its effect is. -/
+def unicodeDammitFull (known override user : List PStr) (declared : Option PStr) (mode : Mode) (markup : Bytes) : Outcome :=
+  unicodeDammitWithU liveTables (known ++ override) user declared mode markup
 
 /-- One constructor call: `UnicodeDammit(markup, known, smart_quotes_to=mode)` on a document whose
     declaration (if any) names `declared`. -/
@@ -319,8 +334,10 @@ structure DammitCall where
   declared : Option PStr
   mode : Mode
   markup : Bytes
+  override : List PStr := []
+  user : List PStr := []
 
-def runCall (c : DammitCall) : Outcome := unicodeDammit c.known c.declared c.mode c.markup
+def runCall (c : DammitCall) : Outcome := unicodeDammitFull c.known c.override c.user c.declared c.mode c.markup
 
 /-- State a sequence of calls in one process could share.  In bs4 4.13 there is none: `find_codec`,
     `_convert_from` and `detwingle` read class constants only and `tried_encodings` lives on the object. -/
